@@ -80,6 +80,8 @@ def gen_lens(rng, npop, glob):
         kw["lambda_mst_distribution"] = rng.choice(["NONE", "GAUSSIAN"])
     if rng.random() < 0.15 and "kin_scaling_param_list" not in kw:
         kw["anisotropy_sampling"] = False
+    if lt in lc.KIN_TYPES and rng.random() < 0.6:
+        data["sigma_sys_error_include"] = True
     kw.update(data)
     return kw, lt, data
 
@@ -104,7 +106,7 @@ def gen_case(rng):
     nslope = sum(1 for kw, _, _ in lenses if "gamma_pl" in kw.get("kin_scaling_param_list", [])) if not gglobal else 0
     hyper = dict(kwargs_lens=dict(lambda_mst=rng.uniform(0.9, 1.1), lambda_ifu=rng.uniform(0.9, 1.1), gamma_ppn=rng.uniform(0.8, 1.2),
                                   lambda_mst_sigma=0.0, lambda_ifu_sigma=0.0, alpha_lambda=rng.uniform(-0.1, 0.1)),
-                 kwargs_kin=dict(a_ani=rng.uniform(0.8, 3.5)),
+                 kwargs_kin=dict(a_ani=rng.uniform(0.8, 3.5), **({"sigma_v_sys_error": rng.uniform(0.02, 0.15)} if rng.random() < 0.6 else {})),
                  kwargs_source=dict(mu_sne=rng.uniform(19, 23), sigma_sne=0.0, z_apparent_m_anchor=0.1),
                  kwargs_los=[dict(mean=rng.uniform(-0.03, 0.08), sigma=0.0) for _ in range(npop)])
     if nslope:
@@ -127,11 +129,13 @@ def slope_flags(case):
 
 
 def evaluate(case, sample, hyper=None, cosmo=None):
+    """every call gets its OWN copy of the hyper-parameter dictionaries (independent callers): the
+    per-lens terms are evaluated lens by lens, the total in one call on a fresh copy"""
     cosmo = cosmo or lc.FakeCosmo()
     h = hyper or case["hyper"]
     np.random.seed(1)
-    return [float(np.squeeze(l.lens_log_likelihood(cosmo, **h))) for l in sample._lens_list], \
-        float(np.squeeze(sample.log_likelihood(cosmo, **h)))
+    terms = [float(np.squeeze(l.lens_log_likelihood(cosmo, **copy.deepcopy(h)))) for l in sample._lens_list]
+    return terms, float(np.squeeze(sample.log_likelihood(cosmo, **copy.deepcopy(h))))
 
 
 def oracle(case, rng):
